@@ -34,6 +34,7 @@ type Frame struct {
 	isTop     bool
 	callIdx   map[string]int
 	name      string
+	private   map[*ssa.Alloc]bool
 }
 
 type loopInfo struct {
@@ -358,6 +359,20 @@ func (e *Enc) execPhi(fr *Frame, phi *ssa.Phi, b *ssa.BasicBlock, ins []edgeIn) 
 // loopMods computes the components possibly modified by the loop body.
 func (e *Enc) loopMods(fr *Frame, li *loopInfo) *ModSet {
 	ms := newModSet()
+	defer func() {
+		// call/receive ghosts count direct calls only: keep those of the loop body (and of
+		// callees that are expanded in place), drop what callee summaries contributed
+		for f := range ms.Fams {
+			if strings.HasPrefix(f, "G:calls:") || f == "G:recv" {
+				delete(ms.Fams, f)
+			}
+		}
+		var blocks []*ssa.BasicBlock
+		for b := range li.blocks {
+			blocks = append(blocks, b)
+		}
+		e.directCallFams(fr.fn, blocks, ms, 0, map[*ssa.Function]bool{})
+	}()
 	for b := range li.blocks {
 		for _, ins := range b.Instrs {
 			e.mods.instrMods(fr.fn, ins, ms)
@@ -387,6 +402,14 @@ func (e *Enc) enterLoop(fr *Frame, li *loopInfo, ins []edgeIn) pathState {
 	// alloc only grows
 	e.allocMonotone(entrySt, st)
 	e.clockMonotone(entrySt, st)
+	e.countersMonotone(entrySt, st)
+	// 2b. loop frame: locations outside the function's modifies clause are unchanged so far
+	if e.framesOn() {
+		goals := e.frameGoals(st)
+		for _, name := range sortedKeys(goals) {
+			e.assumeIf(reach, goals[name])
+		}
+	}
 	// 3. assume invariant
 	for _, c := range e.loopInvariants(fr, li) {
 		t, err := e.evalClause(fr, c, st, fr.entry, nil, true)
@@ -408,23 +431,42 @@ func (e *Enc) loopInvariants(fr *Frame, li *loopInfo) []*Clause {
 
 func (e *Enc) checkInvariant(fr *Frame, li *loopInfo, reach string, st *St, when string) {
 	for i, c := range e.loopInvariants(fr, li) {
-		t, err := e.evalClause(fr, c, st, fr.entry, nil, true)
-		if err != nil {
-			e.errorf("%s: loop %d invariant %s: %v", fr.name, li.ord, c.Label, err)
-			continue
-		}
 		lbl := c.Label
 		if lbl == "" {
 			lbl = fmt.Sprintf("%d", i+1)
 		}
-		if fr.isTop || e.inlineObls(fr) {
-			e.addObl("inv", fmt.Sprintf("%sloop%d:%s:%s", e.framePrefix(fr), li.ord, lbl, when), reach, t, li.minPos, c.Text)
+		parts := splitConjuncts(c.Expr)
+		for j, part := range parts {
+			pc := &Clause{Kind: c.Kind, Label: c.Label, Text: part.String(), Expr: part, Loop: c.Loop, File: c.File, Line: c.Line}
+			t, err := e.evalClause(fr, pc, st, fr.entry, nil, true)
+			if err != nil {
+				e.errorf("%s: loop %d invariant %s: %v", fr.name, li.ord, c.Label, err)
+				continue
+			}
+			l := lbl
+			if len(parts) > 1 {
+				l = fmt.Sprintf("%s.%d", lbl, j+1)
+			}
+			e.addObl("inv", fmt.Sprintf("%sloop%d:%s:%s", e.framePrefix(fr), li.ord, l, when), reach, t, li.minPos, pc.Text)
 		}
 	}
 }
 
 func (e *Enc) backEdge(fr *Frame, li *loopInfo, from *ssa.BasicBlock, reach string, st *St) {
 	e.checkInvariant(fr, li, reach, st, "back")
+	if e.framesOn() {
+		goals := e.frameGoals(st)
+		for _, name := range sortedKeys(goals) {
+			c := e.comps[name]
+			e.addObl("frame", fmt.Sprintf("%sloop%d:%s", e.framePrefix(fr), li.ord, c.Name), reach, goals[name], li.minPos, "loop body changes only declared locations of "+c.Fam)
+		}
+	}
+}
+
+// framesOn: the function under verification has a modifies clause that is being checked.
+func (e *Enc) framesOn() bool {
+	fc := e.topContract
+	return fc != nil && !fc.NoFrame && (fc.HasMod || len(fc.Ensures) > 0) && e.topFrame != nil && e.topFrame.entry != nil
 }
 
 func (e *Enc) framePrefix(fr *Frame) string {
@@ -446,6 +488,26 @@ func (e *Enc) allocMonotone(before, after *St) {
 	}
 }
 
+// countersMonotone: call/receive counters never decrease across loop iterations.
+func (e *Enc) countersMonotone(before, after *St) {
+	for _, name := range e.compOrder {
+		c := e.comps[name]
+		if !(strings.HasPrefix(c.Fam, "G:calls:") || c.Fam == "G:recv") {
+			continue
+		}
+		b0, b1 := e.get(before, c), e.get(after, c)
+		if b0 == b1 {
+			continue
+		}
+		switch {
+		case strings.HasPrefix(name, "calls_") || name == "recvtotal":
+			e.assume(fmt.Sprintf("(>= %s %s)", b1, b0))
+		case strings.HasPrefix(name, "retcount_") || name == "recvcount":
+			e.assume(fmt.Sprintf("(forall ((v Int)) (! (>= (select %s v) (select %s v)) :pattern ((select %s v))))", b1, b0, b1))
+		}
+	}
+}
+
 func (e *Enc) clockMonotone(before, after *St) {
 	c := e.clockComp()
 	b0, b1 := e.get(before, c), e.get(after, c)
@@ -457,6 +519,15 @@ func (e *Enc) clockMonotone(before, after *St) {
 // havocMods havocs every known component whose family is in ms.
 func (e *Enc) havocMods(fr *Frame, st *St, ms *ModSet, includeLocals bool) {
 	var hv []*Comp
+	forCall := !includeLocals
+	oldSyms := map[string]string{}
+	var hvLocals []*Comp
+	defer func() {
+		// havocked local variables still hold well-formed, allocated values
+		for _, c := range hvLocals {
+			e.specLoadFact(e.get(st, c), c.Sort, st)
+		}
+	}()
 	if ms.Fams["MONITOR"] {
 		// any lock acquisition / wait inside: protected state of every monitor may change
 		ms2 := newModSet()
@@ -478,13 +549,26 @@ func (e *Enc) havocMods(fr *Frame, st *St, ms *ModSet, includeLocals bool) {
 		if c.Kind == "local" {
 			if includeLocals && (ms.Fams[c.Fam] || ms.Top && false) {
 				e.havocComp(st, c, "")
+				hvLocals = append(hvLocals, c)
 			}
 			continue
 		}
-		if ms.Top || ms.Fams[c.Fam] {
+		if forCall && (strings.HasPrefix(c.Fam, "G:calls:") || c.Fam == "G:recv") {
+			// calls()/lastret()/lastarg() count the direct calls of the function under
+			// verification only; calls made inside a callee do not touch them
+			continue
+		}
+		isCallGhost := strings.HasPrefix(c.Fam, "G:calls:") || c.Fam == "G:recv"
+		// Top stands for unknown code of this module: it cannot touch call ghosts, and user
+		// ghost variables change only through contracts that declare them
+		if (ms.Top && !isCallGhost && !(c.Kind == "ghost" && strings.HasPrefix(c.Name, "ghost_"))) || ms.Fams[c.Fam] {
+			oldSyms[c.Name] = e.get(st, c)
 			e.havocComp(st, c, "")
 			hv = append(hv, c)
 		}
+	}
+	if forCall && fr != nil {
+		e.restorePrivateCells(fr, st, oldSyms)
 	}
 	e.linkMapFacts(st, ms)
 	e.assumeClosed(st, hv)
@@ -1045,6 +1129,19 @@ func (e *Enc) execUnOp(fr *Frame, x *ssa.UnOp, cur *pathState) {
 			et = ch.Elem()
 		}
 		e.note("channel receive modelled as an arbitrary value (no blocking)")
+		defer func() {
+			// ghost: count received values (countrecv(v), recvs() in specifications)
+			r := fr.regs[x]
+			if r.Tup != nil {
+				r = r.Tup[0]
+			}
+			tc := e.comp("recvtotal", "Int", "ghost", "G:recv")
+			e.set(cur.st, tc, "(+ "+e.get(cur.st, tc)+" 1)")
+			if r.S == "Int" {
+				cc := e.comp("recvcount", "(Array Int Int)", "ghost", "G:recv")
+				e.set(cur.st, cc, store(e.get(cur.st, cc), r.T, "(+ "+sel(e.get(cur.st, cc), r.T)+" 1)"))
+			}
+		}()
 		if x.CommaOk {
 			rv := e.freshVal("recv", et, cur)
 			ok := e.fresh("recvok")
@@ -1092,7 +1189,9 @@ func (e *Enc) execBinOp(fr *Frame, x *ssa.BinOp, cur *pathState) {
 	case token.REM:
 		e.safety(fr, cur, "div", x.Pos(), not(eq(b.T, "0")), x)
 		t = "(gmod " + a.T + " " + b.T + ")"
-	case token.AND, token.OR, token.XOR, token.AND_NOT:
+	case token.AND:
+		t = bitAnd(e, a.T, b.T)
+	case token.OR, token.XOR, token.AND_NOT:
 		n := map[token.Token]string{token.AND: "bitand", token.OR: "bitor", token.XOR: "bitxor", token.AND_NOT: "bitandnot"}[x.Op]
 		e.ufun(n, []string{"Int", "Int"}, "Int")
 		t = "(" + n + " " + a.T + " " + b.T + ")"
@@ -1490,5 +1589,217 @@ func (e *Enc) execRunDefers(fr *Frame, cur *pathState) {
 		}
 		m := e.mergeStates([]edgeIn{{nil, yes.reach, yes.st}, {nil, noReach, cur.st}}, fmt.Sprintf("f%d_afterdefer%d", fr.id, i))
 		*cur = pathState{m.reach, m.st.clone()}
+	}
+}
+
+// bitAnd encodes x & c arithmetically when one operand is a literal single-bit or low mask
+// (non-negative operands), otherwise as an uninterpreted function.
+func bitAnd(e *Enc, a, b string) string {
+	lit := func(s string) (int64, bool) {
+		var v int64
+		if _, err := fmt.Sscanf(s, "%d", &v); err == nil && fmt.Sprint(v) == s && v >= 0 {
+			return v, true
+		}
+		return 0, false
+	}
+	x, c, ok := "", int64(0), false
+	if v, isLit := lit(b); isLit {
+		x, c, ok = a, v, true
+	} else if v, isLit := lit(a); isLit {
+		x, c, ok = b, v, true
+	}
+	if ok {
+		if c == 0 {
+			return "0"
+		}
+		if c&(c-1) == 0 { // single bit
+			return fmt.Sprintf("(* (mod (div %s %d) 2) %d)", x, c, c)
+		}
+		if (c+1)&c == 0 { // low mask 2^k-1
+			return fmt.Sprintf("(mod %s %d)", x, c+1)
+		}
+	}
+	e.ufun("bitand", []string{"Int", "Int"}, "Int")
+	return "(bitand " + a + " " + b + ")"
+}
+
+// privateCell: a heap-allocated local (captured by closures) whose address never leaves this
+// function except into closures that are only called/spawned here. A callee cannot write it.
+func privateCell(a *ssa.Alloc) bool {
+	refs := a.Referrers()
+	if refs == nil {
+		return false
+	}
+	for _, r := range *refs {
+		switch x := r.(type) {
+		case *ssa.Store:
+			if x.Val == ssa.Value(a) {
+				return false // the address itself is stored somewhere
+			}
+		case *ssa.UnOp, *ssa.DebugRef:
+		case *ssa.MakeClosure:
+			crefs := x.Referrers()
+			if crefs == nil {
+				return false
+			}
+			for _, cr := range *crefs {
+				switch y := cr.(type) {
+				case *ssa.Go:
+					if y.Call.Value != ssa.Value(x) {
+						return false
+					}
+				case *ssa.Call:
+					if y.Call.Value != ssa.Value(x) {
+						return false
+					}
+				case *ssa.Defer:
+					if y.Call.Value != ssa.Value(x) {
+						return false
+					}
+				case *ssa.Store:
+					// closure stored in a local that is only called: accept if that local is non-escaping
+					la, ok := y.Addr.(*ssa.Alloc)
+					if !ok || la.Heap {
+						return false
+					}
+					if !localOnlyCalled(la) {
+						return false
+					}
+				case *ssa.DebugRef:
+				default:
+					return false
+				}
+			}
+		default:
+			return false
+		}
+	}
+	return true
+}
+
+// localOnlyCalled: every load of the local function variable is used only as a call target.
+func localOnlyCalled(a *ssa.Alloc) bool {
+	refs := a.Referrers()
+	if refs == nil {
+		return false
+	}
+	for _, r := range *refs {
+		switch x := r.(type) {
+		case *ssa.Store, *ssa.DebugRef:
+		case *ssa.UnOp:
+			lrefs := x.Referrers()
+			if lrefs == nil {
+				continue
+			}
+			for _, lr := range *lrefs {
+				switch y := lr.(type) {
+				case *ssa.Call:
+					if y.Call.Value != ssa.Value(x) {
+						return false
+					}
+				case *ssa.Defer:
+					if y.Call.Value != ssa.Value(x) {
+						return false
+					}
+				case *ssa.Go:
+					if y.Call.Value != ssa.Value(x) {
+						return false
+					}
+				case *ssa.DebugRef:
+				default:
+					return false
+				}
+			}
+		default:
+			return false
+		}
+	}
+	return true
+}
+
+func (e *Enc) restorePrivateCells(fr *Frame, st *St, oldSyms map[string]string) {
+	for f := fr; f != nil; f = f.caller {
+		var allocs []*ssa.Alloc
+		for v := range f.regs {
+			if a, ok := v.(*ssa.Alloc); ok && a.Heap {
+				allocs = append(allocs, a)
+			}
+		}
+		sort.Slice(allocs, func(i, j int) bool { return allocs[i].Name() < allocs[j].Name() })
+		for _, a := range allocs {
+			r := f.regs[a]
+			if r.Loc == nil || r.Loc.Kind != "cell" || oldSyms[r.Loc.Comp] == "" {
+				continue
+			}
+			if f.private == nil {
+				f.private = map[*ssa.Alloc]bool{}
+			}
+			p, seen := f.private[a]
+			if !seen {
+				p = privateCell(a)
+				f.private[a] = p
+			}
+			if !p {
+				continue
+			}
+			c := e.comps[r.Loc.Comp]
+			e.set(st, c, store(e.get(st, c), r.Loc.Base, sel(oldSyms[r.Loc.Comp], r.Loc.Base)))
+		}
+	}
+}
+
+// directCallFams adds the call-ghost families of the calls made directly by the given blocks,
+// following callees that the encoder expands in place (inline contracts, getters, closures).
+func (e *Enc) directCallFams(fn *ssa.Function, blocks []*ssa.BasicBlock, ms *ModSet, depth int, seen map[*ssa.Function]bool) {
+	for _, b := range blocks {
+		for _, ins := range b.Instrs {
+			if u, ok := ins.(*ssa.UnOp); ok && u.Op == token.ARROW {
+				ms.add("G:recv")
+			}
+			var c *ssa.CallCommon
+			switch x := ins.(type) {
+			case *ssa.Call:
+				c = &x.Call
+			case *ssa.Defer:
+				c = &x.Call
+			}
+			if c == nil {
+				continue
+			}
+			if _, ok := c.Value.(*ssa.Builtin); ok {
+				continue
+			}
+			if c.IsInvoke() {
+				short := typeStr(c.Value.Type())
+				if n, ok := c.Value.Type().(*types.Named); ok {
+					short = n.Obj().Name()
+				}
+				ms.add("G:calls:" + short + "." + c.Method.Name())
+				continue
+			}
+			callee := c.StaticCallee()
+			if callee == nil {
+				callee = e.mods.resolveDyn(c.Value)
+			}
+			if callee == nil {
+				ms.add("G:calls:dyn:" + dynName(c.Value))
+				continue
+			}
+			name := shortFuncName(callee)
+			ms.add("G:calls:" + name)
+			full := callee.String()
+			switch full {
+			case "(*sync.Cond).Signal", "(*sync.Cond).Broadcast":
+				ms.add("G:calls:Cond." + callee.Name())
+			case "fmt.Errorf", "errors.New":
+				ms.add("G:calls:" + full)
+			}
+			fc := e.cs.Funcs[name]
+			expands := (fc != nil && fc.Inline) || (fc == nil && e.autoInline(callee))
+			if expands && callee.Blocks != nil && depth < maxInlineDepth && !seen[callee] {
+				seen[callee] = true
+				e.directCallFams(callee, callee.Blocks, ms, depth+1, seen)
+			}
+		}
 	}
 }
